@@ -1,10 +1,12 @@
 import S3V.Spec.XmlMeaning
 import S3V.Thm.XmlRoundtrip
 import S3V.Thm.XmlUtf8b
+import S3V.Thm.XmlEol
 /-!
 An accepted scalar element is given its XML meaning: whatever mix of text pieces with references, CDATA sections,
-comments and PIs its character data is written as, the text `Deserializer::text` hands to the scalar parser
-unescapes to the string the run denotes (code since c575458).
+comments and PIs its character data is written as, and however its line ends are written (LF, CR LF, CR), the text
+`Deserializer::text` hands to the scalar parser unescapes to the string the run denotes (code since c575458; line
+ends since eab498c).
 -/
 namespace S3V.XmlSpec
 open S3V S3V.Xml
@@ -34,7 +36,7 @@ theorem charsMeaning_valid : ∀ (run : List QEv) (m : Bytes), charsMeaning run 
     simp only [charsMeaning] at h
     split at h
     · rename_i hv
-      cases hu : unescape raw with
+      cases hu : unescape (normEol raw) with
       | none => simp [hu] at h
       | some a =>
         cases hr : charsMeaning r with
@@ -42,7 +44,7 @@ theorem charsMeaning_valid : ∀ (run : List QEv) (m : Bytes), charsMeaning run 
         | some b =>
           simp only [hu, hr, Option.some.injEq] at h
           subst h
-          exact utf8Valid_append (utf8Valid_unescape hv hu) (charsMeaning_valid r b hr)
+          exact utf8Valid_append (utf8Valid_unescape (utf8Valid_normEol hv) hu) (charsMeaning_valid r b hr)
     · cases h
   | .cdata c :: r, m, h => by
     simp only [charsMeaning] at h
@@ -51,7 +53,7 @@ theorem charsMeaning_valid : ∀ (run : List QEv) (m : Bytes), charsMeaning run 
       simp only [Option.map_eq_some_iff] at h
       obtain ⟨b, hb, he⟩ := h
       subst he
-      exact utf8Valid_append hv (charsMeaning_valid r b hb)
+      exact utf8Valid_append (utf8Valid_normEol hv) (charsMeaning_valid r b hb)
     · cases h
   | .comment :: r, m, h => charsMeaning_valid r m (by simpa [charsMeaning] using h)
   | .pi :: r, m, h => charsMeaning_valid r m (by simpa [charsMeaning] using h)
@@ -77,7 +79,7 @@ theorem textLoop_joined (name : Bytes) (rest : List QEv) (d : Nat) : ∀ (run : 
     simp only [charsMeaning] at hm
     split at hm
     · rename_i hv
-      cases hu : unescape raw with
+      cases hu : unescape (normEol raw) with
       | none => simp [hu] at hm
       | some a =>
         cases hr : charsMeaning r with
@@ -85,10 +87,12 @@ theorem textLoop_joined (name : Bytes) (rest : List QEv) (d : Nat) : ∀ (run : 
         | some b =>
           simp only [hu, hr, Option.some.injEq] at hm
           subst hm
+          have hvn := utf8Valid_normEol hv
           have ih := textLoop_joined name rest d r (s ++ a) b
-            (utf8Valid_append hs (utf8Valid_unescape hv hu)) hr
+            (utf8Valid_append hs (utf8Valid_unescape hvn hu)) hr
           simp only [List.cons_append, deEventsAt_text_succ, textLoop, Option.isNone_none, Option.isNone_some, Bool.and_false,
-            Bool.false_eq_true, if_false, joinedText, Option.getD_some, decodeStr_ok hv hu, ih, List.append_assoc]
+            Bool.false_eq_true, if_false, joinedText, Option.getD_some, normText_eq_normEol hv, decodeStr_ok hvn hu, ih,
+            List.append_assoc]
     · cases hm
   | .cdata c :: r, s, m, hs, hm => by
     simp only [charsMeaning] at hm
@@ -97,9 +101,9 @@ theorem textLoop_joined (name : Bytes) (rest : List QEv) (d : Nat) : ∀ (run : 
       simp only [Option.map_eq_some_iff] at hm
       obtain ⟨b, hb, he⟩ := hm
       subst he
-      have ih := textLoop_joined name rest d r (s ++ c) b (utf8Valid_append hs hv) hb
-      simp only [List.cons_append, deEventsAt_cdata_succ, textLoop, joinedText, Option.getD_some, hv, if_true, ih,
-        List.append_assoc]
+      have ih := textLoop_joined name rest d r (s ++ normEol c) b (utf8Valid_append hs (utf8Valid_normEol hv)) hb
+      simp only [List.cons_append, deEventsAt_cdata_succ, textLoop, joinedText, Option.getD_some, hv, if_true,
+        normLineEnds_eq_normEol, ih, List.append_assoc]
     · cases hm
   | .comment :: r, s, m, hs, hm => by
     have := textLoop_joined name rest d r s m hs (by simpa [charsMeaning] using hm)
@@ -124,7 +128,7 @@ theorem textLoop_single (name : Bytes) (rest : List QEv) (d : Nat) (x ax : Bytes
     simp only [charsMeaning] at hm
     split at hm
     · rename_i hv
-      cases hu : unescape raw with
+      cases hu : unescape (normEol raw) with
       | none => simp [hu] at hm
       | some a =>
         cases hr : charsMeaning r with
@@ -132,13 +136,14 @@ theorem textLoop_single (name : Bytes) (rest : List QEv) (d : Nat) (x ax : Bytes
         | some b =>
           simp only [hu, hr, Option.some.injEq] at hm
           subst hm
+          have hvn := utf8Valid_normEol hv
           have hax := utf8Valid_unescape hx hux
-          have ha := utf8Valid_unescape hv hu
+          have ha := utf8Valid_unescape hvn hu
           have hj := textLoop_joined name rest d r (ax ++ a) b (utf8Valid_append hax ha) hr
           refine ⟨escape ((ax ++ a) ++ b), ?_, ?_⟩
           · simp only [List.cons_append, deEventsAt_text_succ, textLoop, Option.isNone_none, Option.isNone_some, Bool.false_and,
               Bool.false_eq_true, if_false, joinedText, Option.getD_none, List.nil_append, decodeStr_ok hx hux,
-              decodeStr_ok hv hu, hj]
+              normText_eq_normEol hv, decodeStr_ok hvn hu, hj]
           · rw [List.append_assoc]
             exact decodeStr_escape_valid (utf8Valid_append hax (utf8Valid_append ha (charsMeaning_valid r b hr)))
     · cases hm
@@ -150,12 +155,13 @@ theorem textLoop_single (name : Bytes) (rest : List QEv) (d : Nat) (x ax : Bytes
       obtain ⟨b, hb, he⟩ := hm
       subst he
       have hax := utf8Valid_unescape hx hux
-      have hj := textLoop_joined name rest d r (ax ++ c) b (utf8Valid_append hax hv) hb
-      refine ⟨escape ((ax ++ c) ++ b), ?_, ?_⟩
+      have hvn := utf8Valid_normEol hv
+      have hj := textLoop_joined name rest d r (ax ++ normEol c) b (utf8Valid_append hax hvn) hb
+      refine ⟨escape ((ax ++ normEol c) ++ b), ?_, ?_⟩
       · simp only [List.cons_append, deEventsAt_cdata_succ, textLoop, joinedText, Option.getD_none, List.nil_append,
-          decodeStr_ok hx hux, hv, if_true, hj]
+          decodeStr_ok hx hux, hv, if_true, normLineEnds_eq_normEol, hj]
       · rw [List.append_assoc]
-        exact decodeStr_escape_valid (utf8Valid_append hax (utf8Valid_append hv (charsMeaning_valid r b hb)))
+        exact decodeStr_escape_valid (utf8Valid_append hax (utf8Valid_append hvn (charsMeaning_valid r b hb)))
     · cases hm
   | .comment :: r, m, hm => by
     have := textLoop_single name rest d x ax hx hux r m (by simpa [charsMeaning] using hm)
@@ -180,7 +186,7 @@ theorem textOf_meaning (name : Bytes) (rest : List QEv) (d : Nat) : ∀ (run : L
     simp only [charsMeaning] at hm
     split at hm
     · rename_i hv
-      cases hu : unescape raw with
+      cases hu : unescape (normEol raw) with
       | none => simp [hu] at hm
       | some a =>
         cases hr : charsMeaning r with
@@ -188,9 +194,10 @@ theorem textOf_meaning (name : Bytes) (rest : List QEv) (d : Nat) : ∀ (run : L
         | some b =>
           simp only [hu, hr, Option.some.injEq] at hm
           subst hm
-          obtain ⟨raw', h1, h2⟩ := textLoop_single name rest d raw a hv hu r b hr
+          obtain ⟨raw', h1, h2⟩ := textLoop_single name rest d (normEol raw) a (utf8Valid_normEol hv) hu r b hr
           refine ⟨raw', ?_, h2⟩
-          simp only [textOf, List.cons_append, deEventsAt_text_succ, textLoop, Option.isNone_none, Bool.and_self, if_true]
+          simp only [textOf, List.cons_append, deEventsAt_text_succ, textLoop, Option.isNone_none, Bool.and_self, if_true,
+            normText_eq_normEol hv]
           exact h1
     · cases hm
   | .cdata c :: r, m, hm => by
@@ -200,10 +207,11 @@ theorem textOf_meaning (name : Bytes) (rest : List QEv) (d : Nat) : ∀ (run : L
       simp only [Option.map_eq_some_iff] at hm
       obtain ⟨b, hb, he⟩ := hm
       subst he
-      have hj := textLoop_joined name rest d r c b hv hb
-      refine ⟨escape (c ++ b), ?_, decodeStr_escape_valid (utf8Valid_append hv (charsMeaning_valid r b hb))⟩
+      have hvn := utf8Valid_normEol hv
+      have hj := textLoop_joined name rest d r (normEol c) b hvn hb
+      refine ⟨escape (normEol c ++ b), ?_, decodeStr_escape_valid (utf8Valid_append hvn (charsMeaning_valid r b hb))⟩
       simp only [textOf, List.cons_append, deEventsAt_cdata_succ, textLoop, joinedText, Option.getD_none, List.nil_append, hv,
-        if_true, hj]
+        if_true, normLineEnds_eq_normEol, hj]
     · cases hm
   | .comment :: r, m, hm => by
     have := textOf_meaning name rest d r m (by simpa [charsMeaning] using hm)
